@@ -8,5 +8,6 @@ func init() {
 	m := time.Minute
 	specs["C12"] = spec{BudgetQuick: 5 * m, BudgetThorough: 30 * m}
 	specs["C13"] = spec{Instr: map[string]string{poly + "io/fasta": "sched"}, Procs: 1}
+	specs["C20"] = spec{Instr: map[string]string{poly + "io/uniprot": "sched"}, Procs: 1}
 	specs["C09"] = spec{Instr: map[string]string{poly + "clone": "sched"}, Procs: 1, BudgetQuick: 4 * m, BudgetThorough: 20 * m}
 }
